@@ -154,7 +154,7 @@ type run struct {
 	msgs    []realMsg         // real id = index+1
 	bind    map[int]int       // model id -> real id
 	adv     *attacker.Adv
-	advInit map[int]*noise.HandshakeState // real id of forged IH -> initiator state
+	advInit map[int]func() *noise.HandshakeState // real id of forged IH -> builds its initiator state
 	owned   map[int]*attacker.Ciphers     // real id of RH -> transport keys the attacker knows
 	pts     map[int][]byte
 	valid   bool
@@ -345,8 +345,9 @@ func (r *run) forge(t *Term) (out []byte, flat *Flat, why string, post func(id i
 			kx, ts, sig = keyBytes(t.Key), ts2, r.garbage(64)
 		}
 		if t.Eph == "eM" {
-			b, hs := r.adv.InitHello(kx, ts, sig)
-			return b, f, "", func(id int) { r.advInit[id] = hs }
+			b, _ := r.adv.InitHello(kx, ts, sig)
+			mk := func() *noise.HandshakeState { _, hs := r.adv.InitHello(kx, ts, sig); return hs }
+			return b, f, "", func(id int) { r.advInit[id] = mk }
 		}
 		// somebody else's ephemeral
 		for _, m := range r.msgs {
@@ -371,6 +372,14 @@ func (r *run) forge(t *Term) (out []byte, flat *Flat, why string, post func(id i
 		}
 		switch t.T {
 		case "ID":
+			if len(t.Sig) == 2 && t.Sig[0] == 'x' {
+				// the signature a victim made as RESPONDER to the same InitHello, passed off as InitDone signature
+				sig := r.reflectedSig(refReal, t.Sig[1:])
+				if sig == nil {
+					return nil, nil, "no honest RespHello to take the signature from", nil
+				}
+				return attacker.InitDoneSig(c, sig), f, "", nil
+			}
 			return r.adv.InitDone(c, t.Sig == "M", r.garbage(64)), f, "", nil
 		case "RD":
 			return attacker.RespDone(c), f, "", nil
